@@ -92,6 +92,9 @@ static sqf::runtime::runtime::result execute_do(sqf::runtime::runtime& runtime, 
             // Readd return value of frame if it had one
             if (val.has_value())
             { context_active.push_value(val.value()); }
+            // A finished frame always yields exactly one value to its caller: nil if its last statement left none
+            else if (!context_active.empty())
+            { context_active.push_value({}); }
 
             // Restart loop-run
             continue;
